@@ -10,7 +10,8 @@
    schedules of any number of callers with any scripts, forms and mode. *)
 From Coq Require Import List NArith Bool.
 Import ListNotations.
-Require Import Aiuti.XLoop Aiuti.XLoopInv Aiuti.XLoopSafe Aiuti.XLoopLive Aiuti.XLoopProg Aiuti.XLoopK1.
+Require Import Aiuti.XLoop Aiuti.XLoopInv Aiuti.XLoopSafe Aiuti.XLoopLive Aiuti.XLoopProg Aiuti.XLoopK1
+               Aiuti.Case_C17 Aiuti.Case_C17_Complete Aiuti.Case_C17_Sound.
 
 (* The target loop is never run by two threads at once: at any time at most one thread is
    inside L.run_forever; a pool thread that runs L (ensure_aw's borrower or loop_in_thread's
@@ -182,6 +183,42 @@ Proof.
 Qed.
 Print Assumptions enabled_is_complete.
 
+(* The trace monitor used on implementation traces (Case_C17.mon_tags / ok) is COMPLETE for
+   the safety part: on any case whose log the model accepts (with no dead harness thread),
+   it raises none of the safety tags — the only tags possible are the two "stuck" ones —
+   and when the run ended normally it raises no tag at all (ok = true).  In race mode this
+   needs the flag reported at loop_in_thread's return to be true in the log (the model allows
+   a borrower to leave between the successful is_running() and the return; the code has no
+   visible operation there, and the monitor deliberately flags a false flag). *)
+Theorem monitor_complete :
+  forall k : case,
+    model_accepts k = true -> k_texc k = 0 ->
+    (k_mode k <> MRace \/ forall b, In (TM, OLitret b) (k_log k) -> b = true) ->
+    (k_res k = 0 -> ok k = true) /\
+    (forall t, In t (mon_tags k) -> t = T_stuck_k1 \/ t = T_stuck_other).
+Proof. exact monitor_complete_lemma. Qed.
+Print Assumptions monitor_complete.
+
+(* ... and SOUND, independently of the model: if the monitor accepts an observed case, then
+   the run ended normally, no harness thread died, every caller completed, and at EVERY
+   position of the observed log (with [ins_of]/[done_of]/[lock_of]/[owners_of] = the threads
+   inside L, the callers already done, the lock created for L, the lock holders, as recorded by
+   the log's own enter/exit, done, mklock, acq/rel entries before that position):
+   an entry into run_forever found nobody inside (and a pool thread entering held a loop
+   lock); locks are not acquired while held, the loop lock is not released from inside;
+   Lock() for L only when none existed, the table only returns that lock; every awaitable
+   step was on the target loop by a thread inside it; every completion is the first one of
+   that caller and carries its own scripted outcome (closed: RuntimeError); loop_in_thread
+   returned with the loop running; stop returned with the job ended and the forever-thread
+   outside; nobody blocked on a concurrent future. *)
+Theorem monitor_sound :
+  forall k : case, ok k = true ->
+    k_res k = 0 /\ k_texc k = 0 /\
+    (forall i, i < c_n (cfg_of k) -> In i (done_of (cfg_of k) (k_log k))) /\
+    (forall pre e post, k_log k = pre ++ e :: post -> event_ok (cfg_of k) pre e).
+Proof. exact monitor_sound_lemma. Qed.
+Print Assumptions monitor_sound.
+
 (* ---- non-vacuity --------------------------------------------------------------------- *)
 
 (* an accepted log in which two callers complete, one through a borrowed loop and one queued
@@ -243,3 +280,16 @@ Proof. vm_compute. reflexivity. Qed.
 Example k1_breaks_only_the_hypothesis :
   exists s, run k1_cfg k1_log = Some s /\ xsub s 1 = Some (TJ 0) /\ enabled k1_cfg s = [].
 Proof. destruct k1_witness as (s & A & _ & _ & _ & B & _ & C). exists s. auto. Qed.
+
+(* the monitor: an accepted and a rejected observation *)
+Example monitor_accepts_ex :
+  ok (mkcase MIdle [(false, None, FCoro); (true, Some 5%N, FTask)] ex_log 0 0 []) = true /\
+  agree (mkcase MIdle [(false, None, FCoro); (true, Some 5%N, FTask)] ex_log 0 0 []) = true.
+Proof. vm_compute. split; reflexivity. Qed.
+Example monitor_rejects_ex :
+  (* two runners / two locks / foreign outcome / K1 stuck / other stuck *)
+  mon_tags (mkcase MIdle [(false, None, FCoro); (false, None, FCoro)]
+              [(TJ 0, OAcq 1); (TJ 0, OEnter 0); (TJ 1, OMklock 1); (TJ 1, OMklock 2); (TJ 1, OAcq 2); (TJ 1, OEnter 1);
+               (TC 0, ODone 0 (KRet, 1))] 1 0 []) = [1; 3; 4; 11] /\
+  mon_tags (mkcase MIdle [(false, Some 5%N, FCoro); (false, Some 50%N, FCoro)] k1_log 1 0 []) = [T_stuck_k1].
+Proof. vm_compute. split; reflexivity. Qed.
